@@ -1323,13 +1323,58 @@ pub fn classes_of(mask: u8) -> Classes {
     )
 }
 
+/// what a command set must look like on the wire (reference encoding, independent of the library's builder)
+pub fn reference_command_objects(headers: &[Vec<(u8, u16, bool)>]) -> Vec<u8> {
+    let mut out = Vec::new();
+    for h in headers {
+        let Some((var, _, wide)) = h.first().copied() else { continue };
+        let (group, variation) = if var == 0 { (12u8, 1u8) } else { (41u8, var.min(4)) };
+        out.push(group);
+        out.push(variation);
+        if wide {
+            out.push(0x28);
+            out.extend_from_slice(&(h.len() as u16).to_le_bytes());
+        } else {
+            out.push(0x17);
+            out.push(h.len() as u8);
+        }
+        for (_, index, _) in h {
+            if wide {
+                out.extend_from_slice(&index.to_le_bytes());
+            } else {
+                out.push(*index as u8);
+            }
+            match var {
+                0 => out.extend(refapp::crob(0x03, 1, 1000, 1000, 0)),
+                1 => {
+                    out.extend_from_slice(&(*index as i32 + 7).to_le_bytes());
+                    out.push(0);
+                }
+                2 => {
+                    out.extend_from_slice(&(*index as i16 - 3).to_le_bytes());
+                    out.push(0);
+                }
+                3 => {
+                    out.extend_from_slice(&(*index as f32 * 0.5).to_le_bytes());
+                    out.push(0);
+                }
+                _ => {
+                    out.extend_from_slice(&(*index as f64 * 0.25).to_le_bytes());
+                    out.push(0);
+                }
+            }
+        }
+    }
+    out
+}
+
 fn build_commands(headers: &[Vec<(u8, u16, bool)>]) -> crate::master::CommandHeaders {
     use crate::app::control::{
         ControlCode, Group12Var1, Group41Var1, Group41Var2, Group41Var3, Group41Var4, OpType,
         TripCloseCode,
     };
     let mut b = CommandBuilder::new();
-    for h in headers {
+    for (hi, h) in headers.iter().enumerate() {
         for (var, index, wide) in h {
             macro_rules! add {
                 ($cmd:expr) => {
@@ -1348,7 +1393,16 @@ fn build_commands(headers: &[Vec<(u8, u16, bool)>]) -> crate::master::CommandHea
                 _ => add!(Group41Var4::new(*index as f64 * 0.25)),
             }
         }
-        b.finish_header();
+        // between headers of different kinds the builder starts a new header by itself; do it explicitly only when the
+        // kinds are equal (it is the only way to get two headers then) or for half of the other cases
+        let same_kind = match (h.first(), headers.get(hi + 1).and_then(|n| n.first())) {
+            (Some(a), Some(b)) => a.0 == b.0 && a.2 == b.2,
+            _ => true,
+        };
+        let explicit = h.first().map(|f| (f.1 as usize + h.len()) % 2 == 0).unwrap_or(true);
+        if same_kind || explicit {
+            b.finish_header();
+        }
     }
     let _ = (
         ControlCode::from_op_type(OpType::LatchOn),
